@@ -557,6 +557,11 @@ impl Drop for Driver {
             );
             match entry.user_data() {
                 Self::CANCEL | Self::NOTIFY => {}
+                // A multishot / zero-copy op posts several CQEs with the same
+                // `user_data`; only the one without `IORING_CQE_F_MORE` gives the
+                // leaked reference back. Earlier ones must not release the key:
+                // the kernel still owns the op until the ring is closed below.
+                _ if more(entry.flags()) => {}
                 key => {
                     self.in_flight.remove(&(key as usize));
                     drop(unsafe { ErasedKey::from_raw(key as _) });
